@@ -218,8 +218,19 @@ def run(ctx):
         bkeys = list(dict.fromkeys(rng.sample(gen.HOSTILE_KEYS, 3) + [gen.rand_unicode_key(rng) for _ in range(3)]))
         truth = {}
         nrec = 0
+        torn_tails = c % 3 == 1
         for j in range(rng.randint(5, 25)):
             k = rng.choice(bkeys)
+            if torn_tails and rng.random() < 0.3:
+                # what an interrupted append of ANY writer of this format leaves behind: a proper prefix of a record. The
+                # format's answer is the newline every record starts with - the fragment is a line of its own that fails
+                # its checksum, and every record before and after it counts.
+                frag = ref.record_bytes(ref.entry_json(k, ref.sri("sha256", b"never finished"), rng.randrange(10 ** 13), 14, style=style))
+                bp = ref.bucket_path(cache, k)
+                os.makedirs(os.path.dirname(bp), exist_ok=True)
+                with open(bp, "ab") as f:
+                    f.write(frag[:rng.randrange(2, len(frag))])
+                ctx.count("torn_fragments_in_reference_buckets")
             if rng.random() < 0.25:
                 ref.append_record(cache, k, ref.entry_json(k, None, rng.randrange(10 ** 13), 0, style=style))
                 truth.pop(k, None)
